@@ -118,16 +118,30 @@ def msg_exhaustive(chk, relevant, mask="all", cross_impl=False, spec_relevant=No
                        "harness-defined implementors (4 x 2^21 from_bytes calls; every trait method on each accepted message); "
                        "distinct = distinct (implementation, triple); non-trivial = status byte >= 0x80 (a message exists)")
     bad_status = {}
+    rawx_bad = []
     for tag in ("CORR", "SPEC", "MODELSPEC"):
         for l in rep[tag]:
             p = parse_report_line(l)
             if p:
                 req = p[1].split()
+                if req[0] == "rawxblk":
+                    if len(rawx_bad) < 8 and p[1] not in rawx_bad:
+                        rawx_bad.append(p[1])
+                    continue
                 bad_status.setdefault(int(req[3]), set()).add(tag)
-    chk.cov["blocks_mismatching"] = len(bad_status)
+    chk.cov["blocks_mismatching"] = len(bad_status) + len(rawx_bad)
+    for i, b in enumerate(rawx_bad):
+        t = os.path.join(WORK, "%s-rawx-expand-%d.tr" % (chk.pid, i))
+        with open(t, "w") as f:
+            subprocess.run([exe, "expand"] + b.split(), stdout=f, stderr=subprocess.PIPE, text=True)
+        report_lines(chk, chk.drive(t, "rawx-expand-%d" % i), None, "rawx")
     sample_tr = chk.transcript(exe, ["msg-lines", "raw", 0xE3, "--limit", 3], "sample")
     if sample_tr:
         chk.cov["samples"] += [l.strip() for l in open(sample_tr).read().splitlines()[:3]]
+    if chk.tier == "thorough":
+        # every line of every valid block as well (no reliance on the 64-bit digests)
+        for impl in IMPLS:
+            lines_run(chk, exe, ["msg-all-lines", impl], "all-lines-" + impl, relevant=relevant)
     if not bad_status:
         return
     # localise: at most 4 status bytes, all four implementations each
